@@ -1,14 +1,71 @@
 # executed by gen_manifest.py: claim(...) per built check, NA[...] for the rest
-for _p in ALL:
-    NA[_p] = "check not built yet in this session (see DESIGN.md for the plan)"
 NA["C20"] = ("exactly-once delivery across the asyncio task hand-over and third-party frequenz.channels buffering has no arithmetic/"
              "data-structure content a solver could decide; only the schedule could be symbolic, which would be enumeration of concrete event-loop runs "
-             "(a different technique) — DESIGN.md §5")
+             "(a different technique) - DESIGN.md section 5")
+TV = "translation validation per program: programs/topologies enumerated, the real builders/generators and the real evaluator run on symbolic input values (symx proxies), z3 proves the output term equal to the reference term for all values; counterexamples replayed on plain floats"
+TRUST = "trusted: z3 5.1.0, the proxy semantics (re-validated on every run by re-executing sampled paths on plain floats), exact real/integer arithmetic instead of IEEE floats; bounds in evidence coverage.bounds"
 
+claim("C01", "model_checking",
+      "All feasible paths of the real BatteryDistributionAlgorithm.distribute_power (and BatteryManager._distribute_power for the manager instances) are explored with every "
+      "capacity, SoC, limit, bound and the request symbolic; on each path z3 proves set-points + remainder = request (1e-6 relative), sign of every set-point and of the remainder. "
+      "Exhaustive for 1 group (1x1, 1x2, 2x1 shapes, both directions) and 2 groups of 1x1; larger shapes budgeted (stated in evidence).", TRUST, "DESIGN.md section 4 C01")
+claim("C02", "model_checking",
+      "Same exploration as C01 with the bound assertions: each inverter set-point is 0 or inside [exclusion, inclusion] (clipped by the battery), each group total is 0 or inside the "
+      "aggregated battery bounds, a group without SoC headroom gets 0; boundary requests (exactly the advertised exclusion / inclusion bound) as dedicated instances. "
+      "One open known finding (greedy split over several inverters) is excluded by a region predicate, everything else is reported.", TRUST, "DESIGN.md section 4 C02")
 claim("C03", "model_checking",
       "Every feasible path of the real Matryoshka.calculate_target_power/_calc_target_power/drop_old_proposals is explored for <=2 live proposals with every "
       "power, bound, None pattern, creation time and loop time symbolic; z3 proves on each path that the target is inside the inclusion bounds and outside the "
-      "exclusion zone, equals the target of a fresh instance fed only the live proposals (other arrival order, replaced proposals), and that expiry at 60 s is exact. "
-      "Bounded (2 proposals exhaustive, 3 budgeted in thorough), over exact reals.",
-      "trusted: z3, the proxy semantics (validated per run by re-executing sampled paths on plain floats), real arithmetic instead of IEEE floats",
-      "DESIGN.md §4 C03")
+      "exclusion zone, equals the target of a fresh instance fed only the live proposals (other arrival order, replaced proposals, equal priorities with colliding hash slots), "
+      "and that expiry at 60 s is exact. 2 proposals exhaustive, 3 budgeted in thorough.", TRUST, "DESIGN.md section 4 C03")
+claim("C04", "model_checking",
+      "Relational check between three pieces of the real code (_calc_target_power, get_status, _Report.adjust_to_bounds) under a declaratively stated conflict-free precondition: "
+      "the target is the admissible value closest to the lowest-priority preference, the reported bounds are the declared intersection carved by the exclusion zone, "
+      "adjust_to_bounds contains the target, an empty proposal at any priority changes nothing. All values symbolic; 1 bound-setter + 1 preference exhaustive.", TRUST, "DESIGN.md section 4 C04")
+claim("C05", "translation_validation", TV + ". Strings (Tokenizer + shunting yard) with <=4 operands in 4 renderings, operator API trees with <=3 operands plus wrappers/constants, "
+      "larger ones by operator subsets; reference = Python's own evaluation of the same expression.", TRUST, "DESIGN.md section 4 C05")
+claim("C06", "model_checking",
+      "The real FormulaEvaluator/FormulaEngine run on a virtual-time event loop with symbolic per-stream first timestamps (proxy datetimes used as the evaluator's own dict keys) and "
+      "symbolic values; the output value term reveals which (stream, sample) pairs were combined; z3 proves timestamp and value of every output for every offset vector under 4 delivery modes.",
+      TRUST + "; other interleavings are covered by a Kahn-network argument that is stated, not checked", "DESIGN.md section 4 C06")
+claim("C07", "model_checking",
+      "Resampler.__init__/_calculate_window_end executed with symbolic now, align_to and period (non-linear integer arithmetic): alignment, range and the hand-set timer start are proved; "
+      "the real resample() tick loop is run with a stand-in timer yielding arbitrary symbolic drifts, series added while running and a failing sink.", TRUST + "; the real frequenz.channels Timer is replaced by a stand-in with the TriggerAllMissed contract",
+      "DESIGN.md section 4 C07")
+claim("C08", "model_checking",
+      "The real _ResamplingHelper/_StreamingHelper are run with symbolic sample timestamps, validity kinds and tick time; a recording resampling function shows exactly which samples were "
+      "used; z3 proves the half-open relevance interval at both edges, the buffer limit, the None/NaN filter and None-ness of the output; burst and period-estimation instances included.",
+      TRUST, "DESIGN.md section 4 C08")
+claim("C09", "model_checking",
+      "The real OrderedRingBuffer (list container) is executed on symbolic update timestamps (microsecond resolution, any order) and symbolic datetime / index queries and compared with an "
+      "executable reference map slot -> value after every update: acceptance, count_valid, gaps, oldest/newest, count_covered and every element of every window.", TRUST, "DESIGN.md section 4 C09")
+claim("C10", "model_checking",
+      "Actor._run_loop is driven by hand at every suspension point with a symbolic action and a symbolic restart limit (z3 arithmetic decides restart/no restart); BackgroundService.stop/wait/cancel "
+      "and run() are executed with real tasks on a virtual-time loop over symbolic task behaviours and operations. The solver's role is mostly the case split (stated).", TRUST, "DESIGN.md section 4 C10")
+claim("C11", "model_checking",
+      "The real PowerManagingActor handlers (_send_updated_target_power, _send_reports, bounds update, PartialFailure resend, expiry) are applied for every event sequence of bounded length with "
+      "all powers and bounds symbolic; after every request z3 proves request = regular target + operating-point target as reported and request inside the latest bounds.", TRUST, "DESIGN.md section 4 C11")
+claim("C12", "translation_validation", TV + ". All 2609 topologies with <=7 components from a grammar (quick; <=8 thorough) x 3 evaluation modes (no fallback, fallback configured with valid primaries, primaries replaced by "
+      "their generated fallback formulas); 8 identities per topology over symbolic device powers and unmetered loads. One open known finding (consumer formula without grid meter and a mixed meter) "
+      "is excluded by a topology predicate.", TRUST, "DESIGN.md section 4 C12")
+claim("C13", "translation_validation", TV + ". Per input the kind (finite, None, NaN, +inf, -inf) and the nones_are_zeros flags are symbolic choices, so every combination is explored for every program with <=2 operands "
+      "(<=3 thorough); a round without output sample is a violation.", TRUST, "DESIGN.md section 4 C13")
+claim("C14", "model_checking",
+      "One inductive step of the real _run/_handle_task_completion/_process_request from every pre-state satisfying 'pending implies in flight' (re-established and checked), plus every event sequence of "
+      "bounded length with real tasks and done-callbacks on a virtual-time loop, including a request arriving in the loop iteration in which the in-flight distribution finishes. Finite state: the solver does the case split (stated).",
+      TRUST, "DESIGN.md section 4 C14")
+claim("C15", "model_checking",
+      "BatteryManager._distribute_power/_set_distributed_power/_parse_result and PVManager.distribute_power/_set_api_power run on a virtual-time loop with symbolic set-points/bounds/request and a symbolic "
+      "5-way outcome per set_power call (incl. timeout); z3 proves succeeded + failed + excess = request, failed_power = sum of failed set-points, component sets, and calls = distribution.", TRUST, "DESIGN.md section 4 C15")
+claim("C16", "model_checking",
+      "The real BatteryStatusTracker._run dispatch loop and BlockingStatus are driven through a stand-in select/Timer with a symbolic clock: for every sequence of <=4 events (messages with symbolic age and fault, "
+      "timers, set-power results) the sent status equals a reference (never usable while a disqualifying fact holds; exponential blocking; notify on change only).", TRUST + "; stand-in timer contract stated in evidence", "DESIGN.md section 4 C16")
+claim("C17", "model_checking",
+      "One symbolic data set is given to both real code paths (PowerBoundsCalculator.calculate and BatteryManager._get_bounds/_check_request): z3 proves that every power admitted by the advertised bounds is "
+      "accepted for both adjust_power settings, that inclusion bounds are identical and that an admitted power is at least the sum of the groups' minimum powers. 5 topologies exhaustive.", TRUST, "DESIGN.md section 4 C17")
+claim("C18", "model_checking",
+      "SoCCalculator.calculate / CapacityCalculator.calculate on symbolic capacities, SoCs, limits, missing-metric patterns and working subsets: None-ness, range, weighted mean, capacity sum, and (pairs of runs) "
+      "monotonicity and scale invariance are proved over non-linear real arithmetic.", TRUST, "DESIGN.md section 4 C18")
+claim("C19", "model_checking",
+      "The real MetricFetcher inside a real formula on a virtual-time loop, with a fake FallbackMetricFetcher subclass: validity of every primary/fallback sample, per-round delivery order and the point at which "
+      "the primary stream is closed are symbolic; every output is compared with the documented switching rule; a formula with a second plain term exposes misalignment.", TRUST, "DESIGN.md section 4 C19")
